@@ -156,14 +156,23 @@ def check_pure(ctx: Ctx, case):
         first = calib.build(cfg, seeds=var["seeds"], n_jobs=1, verbose=False, saving_folder=None)
         with np.errstate(all="ignore"):
             first.calibrate(n)
-        again = calib.build(cfg, samplers=list(first.scheduler.samplers), n_jobs=1, verbose=False, saving_folder=None)
-        with np.errstate(all="ignore"):
-            ret2 = again.calibrate(n)
-        d2 = calib.hist_diff(h_first, calib.hist_snapshot(again))
+        # ... under ANOTHER calibrator seed: whatever the objects remember from their first calibration must not matter
+        cfg2 = dict(cfg, seed=(cfg["seed"] + 1) % (2**32 - 1))
+        again = calib.build(cfg2, samplers=list(first.scheduler.samplers), n_jobs=1, verbose=False, saving_folder=None)
+        fresh = calib.build(cfg2, seeds=var["seeds"], n_jobs=1, verbose=False, saving_folder=None)
+        try:
+            with np.errstate(all="ignore"), watchdog(240, "reused objects"):
+                ret2 = again.calibrate(n)
+                ret3 = fresh.calibrate(n)
+        except Inconclusive:
+            raise
+        except Exception as e:  # noqa: BLE001 - a configuration that fails under the other seed: nothing to compare
+            raise Inconclusive(f"the run under another seed raises {type(e).__name__}") from e
+        d2 = calib.hist_diff(calib.hist_snapshot(fresh), calib.hist_snapshot(again))
         ctx.classes[f"{sub}:sampler-objects-reused"] += 1
-        if d2 or not (calib.same_values(r_first[0], ret2[0]) and calib.same_values(r_first[1], ret2[1])):
-            ctx.fail("C01/variants-differ", "a second calibration of the same configuration and seed that is handed the same sampler "
-                     f"objects (already used by the first one) produces a different result: {d2 or 'return value differs'}", sub,
+        if d2 or not (calib.same_values(ret3[0], ret2[0]) and calib.same_values(ret3[1], ret2[1])):
+            ctx.fail("C01/variants-differ", "a calibration that is handed sampler objects already used by an earlier calibration "
+                     f"differs from the same configuration and seed run with fresh objects: {d2 or 'return value differs'}", sub,
                      case)
             return
     if len(results) < 2:
